@@ -42,7 +42,7 @@ EXPLANATION = ('Abstract interpretation of Zones::insert/remove/closest (and the
                'the free-interval set stays sorted, disjoint, inside its bounds, that removed ranges are never offered again, and that '
                'the collider only reports "resolved" from a position such an interval offered.  The geometric clauses of C17 (octabox '
                'overlap, limit rectangle arithmetic) are run-time single-precision facts and are not decided.')
-FLOORS = {'ZONESET': 2, 'ZONEWRITERS': 5, 'OFFERED': 2, 'RESOLVED': 3, 'LIMITARGS': 3}
+FLOORS = {'ZONESET': 2, 'ZONEWRITERS': 6, 'OFFERED': 2, 'RESOLVED': 3, 'LIMITARGS': 3}
 SKIP_CONFIGS = ()
 
 PX = 'graphite2::Zones::Exclusion::'
@@ -739,5 +739,10 @@ def run(run):
             f()
         except AnalysisBroken as ex:
             run.broken(name, 'engine', str(ex))
+    try:
+        from . import vecmodel
+        vecmodel.check(run, fx, 'ZONEWRITERS')       # the native Vector model the interpreter uses, checked against List.h's own code
+    except AnalysisBroken as ex:
+        run.broken('ZONEWRITERS', 'vector model', str(ex))
     run.assume('floats are finite and not NaN (so a - b >= 0 is a >= b); [_pos, _posm] is well-formed, as C17 itself presupposes')
     run.assume('bounded exhaustive: every list of up to %d intervals; longer lists are not enumerated' % N)
